@@ -28,10 +28,50 @@ func LeftRecursive(root *Prod) (bool, []string) {
 	collect(root)
 	// nullable fixpoint
 	null := map[*Prod]bool{}
-	var nodeNull func(n *Node) bool
+	var nodeNull, nodeVals func(n *Node) bool
+	// nodeVals: n can succeed without consuming a token AND hand at least one value to its parent (what a
+	// non-empty group `( e )!` actually tests: captures and sub-productions yield a value even when they
+	// matched nothing, `"a"?` and lookahead groups do not; a repetition whose body matches nothing never
+	// succeeds - it runs into the iteration limit).
+	nodeVals = func(n *Node) bool {
+		switch n.K {
+		case KLit, KRef:
+			return nodeNull(n)
+		case KSeq:
+			any := false
+			for _, k := range n.Kids {
+				if !nodeNull(k) {
+					return false
+				}
+				any = any || nodeVals(k)
+			}
+			return any
+		case KAlt:
+			for _, k := range n.Kids {
+				if nodeNull(k) && nodeVals(k) {
+					return true
+				}
+			}
+			return false
+		case KGroup:
+			if n.Mode == '*' || n.Mode == '+' {
+				return false
+			}
+			return nodeVals(n.X)
+		case KCapture:
+			return nodeNull(n.X)
+		case KSub:
+			return null[n.Prod]
+		}
+		return false
+	}
 	nodeNull = func(n *Node) bool {
 		switch n.K {
-		case KLit, KRef, KNeg:
+		case KLit:
+			return n.Lit == "" && n.Typ == "" // the untyped empty literal matches any token, EOF included
+		case KRef:
+			return n.Typ == "EOF" // matches at the end of input, where nothing is consumed
+		case KNeg:
 			return false
 		case KSeq:
 			for _, k := range n.Kids {
@@ -52,7 +92,7 @@ func LeftRecursive(root *Prod) (bool, []string) {
 				return true
 			}
 			if n.Mode == '!' {
-				return false
+				return nodeVals(n.X)
 			}
 			return nodeNull(n.X)
 		case KLook:
